@@ -44,6 +44,7 @@ class SysEngine(MempoolEngine):
         self.querier = None
         self.uw = None
         self.clock = 0
+        self.quiescing = False
         self.notify_in_flight = 0
         self.queryable = set()      # hashes of blocks the index has held (flushed) at some instant so far
         self.reply_t = {}
@@ -177,7 +178,11 @@ class SysEngine(MempoolEngine):
         kind = op[0]
         self.event_log.append(op)
         if kind == 'w':
-            if op[1] == 'reorg':
+            if op[1] == 'reorg_noremine':
+                if w.height() >= 4 and self.uw.admissible(w.tip.prev, w.height() + 1):
+                    self.step(op[1])
+                    self.bump('step:reorg')
+            elif op[1] == 'reorg':
                 # only admissible forks (within the undo window for every tip the server may still be on)
                 d = rng.randrange(1, 3)
                 tip = w.fork(d, d + 1, rng=rng)
@@ -524,6 +529,8 @@ class SysEngine(MempoolEngine):
         if lp:
             # long-park policy: a client read job may stay descheduled across whole polls and refreshes
             def on_submit(job):
+                if self.quiescing:
+                    return      # the judging phase itself must not be held back
                 t = asyncio.current_task()
                 owner = getattr(t.get_coro(), '__qualname__', '') if t else ''
                 if 'fetch_and_process_blocks' in owner or 'keep_synchronized' in owner or '_refresh_hashes' in owner:
@@ -546,6 +553,7 @@ class SysEngine(MempoolEngine):
             if self.srv.check_task():
                 return
         # ---- quiesce
+        self.quiescing = True
         self.bump('scripts_run')
         for attempt in range(3):
             if not await self.wait_synchronised(900):
@@ -618,6 +626,36 @@ def gen_race_script(rng, n_events, nclients, nscripts):
             script.append(('q', rng.choice(qk)))
         script.append(rng.choice((('w', 'reorg'), ('w', 'reorg'), ('rpc_reorg', 2), ('w', 'mine2'))))
         script.append(('sleep', rng.choice((0, 0.05, 6, 12))))
+    return script
+
+
+def gen_lag_script(rng, nclients, nscripts):
+    '''A slow mempool refresh (new txs to fetch from a slow daemon) overtaken by a block that touches subscribed scripts.'''
+    script = []
+    for ci in range(nclients):
+        script.append(('hsub', ci))
+        for si in range(nscripts):
+            script.append(('sub', ci, si))
+    script.append(('sleep', 12))
+    for _ in range(rng.randrange(1, 4)):
+        script.append(('w', 'add'))
+        script.append(('sleep', rng.choice((0, 2, 5.1, 6))))
+        script.append(('w', rng.choice(('mine_none', 'mine_none', 'mine_some', 'mine2'))))
+        script.append(('sleep', rng.choice((20, 40))))
+    return script
+
+
+def gen_unconfirm_script(rng, nclients, nscripts):
+    '''A reorg sends the confirmed parent of an unconfirmed tx back to the mempool (its child's flag flips) while the
+    child's own scripts are not otherwise touched.'''
+    script = []
+    for ci in range(nclients):
+        script.append(('hsub', ci))
+        for si in range(nscripts):
+            script.append(('sub', ci, si))
+    for _ in range(rng.randrange(1, 3)):
+        script += [('w', 'add'), ('w', 'add'), ('sleep', 7), ('w', 'mine_all'), ('sleep', 12),
+                   ('w', 'add_child_of_tip'), ('w', 'add_child_of_tip'), ('sleep', 12), ('w', 'reorg_noremine'), ('sleep', 20)]
     return script
 
 
